@@ -109,6 +109,7 @@ structure Block where
   sign : Bytes
   height : Int
   txids : List Bytes                 -- Txid of every transaction, in block order (a nil Txid is `[]`)
+  carried : List (Option Bytes)      -- the MerkleTree array the message carries (`none`: nil node); never read by VerifyBlock
 deriving DecidableEq, Repr
 
 def justifySegs : Option Justify → List Bytes
@@ -173,6 +174,8 @@ structure Crypto where
   pubJson : Nat → Bytes                  -- GetEcdsaPublicKeyJsonFormatStr of key pair k
   signWith : Nat → Bytes → Bytes         -- SignECDSA with the private key of pair k
 
+/-- `VerifyMerkle` recomputes the tree from the body; the carried array `b.carried` (outside id
+and signature, so rewritable by anyone) is not consulted -/
 def verifyMerkle (H : Bytes → Bytes) (b : Block) : Bool :=
   match merkleRoot H b.txids with
   | none => false
@@ -200,7 +203,8 @@ def formatBlock (c : Crypto) (txids : List Bytes) (proposer : Bytes) (key : Nat)
     pubkey := c.pubJson key, preHash := preHash,
     merkleRoot := (merkleRoot c.H txids).getD [],
     failedTxs := failed, curTerm := curTerm, curBlockNum := curBlockNum, targetBits := targetBits,
-    justify := qc, blockid := [], sign := [], height := height, txids := txids }
+    justify := qc, blockid := [], sign := [], height := height, txids := txids,
+    carried := merkleTree c.H txids }
   let id := c.H (preimage b)
   { b with blockid := id, sign := if preHash.isEmpty then [] else c.signWith key id }
 
